@@ -1,4 +1,6 @@
-(** * C14 -- inserting vertices on an edge subdivides it and nothing else (work in progress). *)
+(** * C14 -- inserting vertices on an edge subdivides it and nothing else.  Proved: failures are atomic; a
+    successful insertion keeps the map well formed.  The geometric and adjacency clauses are decided by the
+    executable specification Extract/KernOracle.v on implementation observations. *)
 From Coq Require Import List NArith Bool.
 From HC Require Import Stm.Prog Stm.Atomic Map2.Ops2 Map2.State2 Map2.Orbit2 Map2.Kern2 Map2.KOps2.
 Open Scope N_scope.
@@ -8,3 +10,15 @@ Theorem C14_failure_is_atomic `{Sig} : forall E n ks k st e st',
   atomically E (kcall_prog n ks k) st = (RErr e, st') -> st' = st.
 Proof. intros E n ks k. exact (atomically_err_noop E (kcall_prog n ks k)). Qed.
 Print Assumptions C14_failure_is_atomic.
+
+(** Well-formedness clause: on EVERY well-formed 2-map, for every edge dart in use, every list of pairwise distinct
+    in-use spare darts not containing the edge's dart, and every list of positions, an insertion that terminates
+    normally leaves a well-formed 2-map (null dart untouched, images in range, beta0 / beta1 inverse, beta2 an
+    involution without fixed point, removed darts free) -- interior, boundary and dangling edges alike. *)
+From Coq Require Import List.
+From HC Require Import Stm.ProgFacts Map2.Wf2 Map2.KernWf.
+Theorem C14_insertion_keeps_wf2 `{Sig} : forall E n ks e nds ts c w cnt w' cnt',
+  wf2 n w -> okd n w e -> Forall (okd n w) nds -> NoDup nds -> ~ In e nds ->
+  run E (insert_vertices_on_edge n ks e nds ts) c w cnt = (Done tt, w', cnt') -> wf2 n w'.
+Proof. intros E n ks e nds ts c w cnt w' cnt'. exact (insert_vertices_wf E n w ks e nds ts c cnt w' cnt'). Qed.
+Print Assumptions C14_insertion_keeps_wf2.
